@@ -36,9 +36,9 @@ import (
 )
 
 type C12Query struct {
-	Kind  string `json:"kind"`
-	State int    `json:"state"`           // between-steps state in which Slots are resolved to hashes / positions
-	Slots []int  `json:"slots,omitempty"` // leaves named by slot (resolved in State)
+	Kind  string   `json:"kind"`
+	State int      `json:"state"`           // between-steps state in which Slots are resolved to hashes / positions
+	Slots []int    `json:"slots,omitempty"` // leaves named by slot (resolved in State)
 	Pos   []uint64 `json:"pos,omitempty"`
 }
 
@@ -708,9 +708,9 @@ func runC12Stress(c C12Case, rq []c12Resolved, ans [][]string, calls []func(in *
 		}
 		return false
 	}
-	var done atomic.Int64   // completed writer steps
-	var ops atomic.Int64    // reader operations
-	var stop atomic.Bool    // writer finished
+	var done atomic.Int64 // completed writer steps
+	var ops atomic.Int64  // reader operations
+	var stop atomic.Bool  // writer finished
 	var firstErr atomic.Pointer[string]
 	var wg sync.WaitGroup
 	for r := 0; r < c.Readers; r++ {
